@@ -285,6 +285,10 @@ def run(repo, rep):
     table_rules(repo, rep)
     from . import common
     common.identity_compare_rule(repo, rep, 'api.app')
+    # dms output is dec2hp of the library's decimal degrees, dms input hp2dec: the carry and digit rules of the two converters
+    from . import c08 as _c08
+    _c08.carry_rule(repo, rep)
+    _c08.digit_rules(repo, rep)
 
 
 def controls(repo):
